@@ -425,11 +425,17 @@ func (mbox *MailboxView) forEachLocked(numSet imap.NumSet, f func(seqNum uint32,
 	for i, msg := range mbox.l {
 		seqNum := uint32(i) + 1
 
+		// Skip messages the client doesn't know about yet: they don't have a
+		// sequence number from the client point-of-view
+		clientSeqNum := mbox.tracker.EncodeSeqNum(seqNum)
+		if clientSeqNum == 0 {
+			continue
+		}
+
 		var contains bool
 		switch numSet := numSet.(type) {
 		case imap.SeqSet:
-			seqNum := mbox.tracker.EncodeSeqNum(seqNum)
-			contains = seqNum != 0 && numSet.Contains(seqNum)
+			contains = numSet.Contains(clientSeqNum)
 		case imap.UIDSet:
 			contains = numSet.Contains(msg.uid)
 		}
